@@ -173,7 +173,7 @@ def run_pipeline(real, solver='SCIPY', split=None):
 _VERDICT = re.compile(r'<<"VERDICT", (\d+), <<(-?\d+), "([^"]*)">>>>')
 
 
-def validate_traces(traces, module='Trace_EAOModel', timeout=1800, keep=None):
+def validate_traces(traces, module='Trace_EAOModel', timeout=1800, keep=None, spec='Spec'):
     """one TLC run over a batch of traces; returns list of (line, verdict) in trace order, plus TLC stats"""
     if not traces:
         return [], dict(generated=0, distinct=0, wall=0)
@@ -183,7 +183,7 @@ def validate_traces(traces, module='Trace_EAOModel', timeout=1800, keep=None):
         with open(tf, 'w') as f:
             for t in traces:
                 f.write(json.dumps(t) + '\n')
-        lines = ['SPECIFICATION Spec', 'CONSTRAINT Mark', 'POSTCONDITION Post', 'CHECK_DEADLOCK FALSE']
+        lines = ['SPECIFICATION ' + spec, 'CONSTRAINT Mark', 'POSTCONDITION Post', 'CHECK_DEADLOCK FALSE']
         tlc.write_mc(wd, 'TV', module, {}, lines)
         r = tlc.run_tlc(wd, 'TV', workers=1, timeout=timeout, env_extra={'TRACE_FILE': tf}, tags=('VERDICT',), json_payload=False)
         verdicts = {}
